@@ -63,6 +63,28 @@ func BuildEnvelope(
 		return nil, ErrInvalidThreshold
 	}
 
+	// Count the shares that are actually placed in grants which at least one
+	// recipient can decrypt: shares are handed out in grant order until
+	// totalShares run out. Fewer than threshold+1 can never be unlocked.
+	var reachable uint64
+	remaining := totalShares
+	for _, gc := range grants {
+		sc := gc.GetShareCount()
+		if sc == 0 {
+			sc = 1
+		}
+		if sc > remaining {
+			sc = remaining
+		}
+		remaining -= sc
+		if len(gc.GetKeypairIndexes()) != 0 {
+			reachable += uint64(sc)
+		}
+	}
+	if reachable < uint64(threshold)+1 {
+		return nil, ErrInvalidThreshold
+	}
+
 	// Generate random Ristretto255 scalar as the master secret.
 	g := group.Ristretto255
 	secret := g.RandomNonZeroScalar(rnd)
